@@ -133,6 +133,20 @@ def gen_case(rng, i, tier):
         if case["cfg"]["max_dist"] is None:
             case["cfg"]["max_dist"] = 2.0
     case["unique"] = rng.random() < 0.5
+    if rng.random() < 0.3 and len(case["trace"]) >= 3:
+        # a multi-step use of one matcher object: match (with an outlier in the middle: early stop), continue_with_distance,
+        # extend, widen ... - determinism is a property of every public call sequence, not only of a single match()
+        n = len(case["trace"])
+        j = rng.randrange(1, n - 1)
+        case["trace"][j] = [case["trace"][j][0] + rng.choice([5.0, 9.0]), case["trace"][j][1] - rng.choice([4.0, 7.0])]
+        if case["cfg"]["max_dist"] is None:
+            case["cfg"]["max_dist"] = rng.choice([1.0, 2.0])
+        ops = [{"op": "match", "k": n, "unique": case["unique"]}, {"op": "cwd"}, {"op": "extend", "k": n, "unique": case["unique"]}]
+        if case["cfg"]["width"] is not None and rng.random() < 0.5:
+            ops.append({"op": "widen", "w": case["cfg"]["width"] + rng.randint(1, 2), "unique": case["unique"]})
+        if rng.random() < 0.3:
+            ops += [{"op": "cwd"}, {"op": "extend", "k": n, "unique": case["unique"]}]
+        case["ops"] = ops
     return case
 
 
@@ -148,6 +162,37 @@ def permute(case, rng):
 
 def run(case):
     mt = build.make_matcher(build.make_inmem(case["map"]), case["cfg"])
+    if case.get("ops"):
+        from .. import monitors
+        steps = []
+        last = [None]
+
+        def after(i, op, res, exc):
+            if exc is not None:
+                steps.append({"exc": type(exc).__name__})
+            elif isinstance(res, tuple):
+                last[0] = res
+                c_ = build.canon(mt, res)
+                st = {"idx": c_["idx"], "empty": c_["empty"], "best": c_["best"]}
+                if mt.early_stop_idx is not None and mt.early_stop_idx > 0 and mt.lattice_best:
+                    # what continue_with_distance() will start from: the k best last matches (public method)
+                    try:
+                        blm = mt.best_last_matches(k=2, nb_obs=2)
+                        st["best_last"] = {str(o): sorted((x.logprob for x in ms), reverse=True) for o, ms in blm.items()}
+                        # digest of the lattice the selection was made from (labels are the same in a permuted map)
+                        st["lattice_digest"] = jhash(sorted((repr(e.key), e.logprob, bool(e.stop)) for col in mt.lattice.values()
+                                                            for layer in col.o for e in layer.values()))
+                    except Exception as e:
+                        st["best_last"] = {"exc": type(e).__name__}
+                steps.append(st)
+            else:
+                steps.append({"res": res})
+        monitors.run_history(mt, build.trace(case["trace"]), case["ops"], after=after)
+        if last[0] is None:
+            raise RuntimeError("no step of the history returned a result")
+        c = build.canon(mt, last[0])
+        c["steps"] = steps
+        return mt, last[0], c
     r = mt.match(build.trace(case["trace"]), unique=case.get("unique", False))
     return mt, r, build.canon(mt, r)
 
@@ -210,6 +255,28 @@ def check_case(ctx, case):
                 ctx.violation(f"C10:permutation:order-dependent:{mech}", {"base": case, "permuted": pc}, f"{kind}: {text}")
             else:
                 ctx.violation(f"C10:permutation:{kind}:{fam}", {"base": case, "permuted": pc}, text)
+        if case.get("ops"):
+            ctx.count("history_permutations_judged")
+            if any(x.get("res") == "cwd" for x in c.get("steps", [])):
+                ctx.count("history_permutations_with_continue_with_distance")
+        bl_diff = None
+        for s1, s2 in zip(c.get("steps", []), c2.get("steps", [])):
+            b1, b2 = s1.get("best_last"), s2.get("best_last")
+            if b1 is None or b2 is None:
+                continue
+            if s1.get("lattice_digest") != s2.get("lattice_digest"):
+                # the lattices already differ (a choice among equally probable alternatives earlier on): the selections are
+                # not comparable; the returned results still are, below
+                ctx.count("best_last_matches_not_comparable_lattices_differ")
+                continue
+            ctx.count("best_last_matches_compared")
+            if set(b1) != set(b2) or any(len(b1[o]) != len(b2[o]) or any(not oracles.close(x, y) for x, y in zip(b1[o], b2[o])) for o in b1 if o != "exc"):
+                bl_diff = (b1, b2)
+                break
+        if bl_diff:
+            ctx.violation(f"C10:permutation:best_last_matches-differ:{fam}", {"base": case, "permuted": pc},
+                          f"the k best last matches (log-probabilities per observation) selected from IDENTICAL lattices depend on the listing order: {bl_diff[0]} vs {bl_diff[1]}")
+            continue
         if c["empty"] != c2["empty"] or c["idx"] != c2["idx"]:
             report("index-differs", f"idx {c['idx']} vs {c2['idx']}")
         elif not c["empty"]:
@@ -304,6 +371,11 @@ def finalize(fold):
                                            "why": f"canonical results differ between processes with different PYTHONHASHSEED: "
                                                   f"{ {e: (v.get('canon') or v) for e, v in sorted(per.items())} }"[:1500]})
 
+
+# determinism does not depend on the log level: a tenth of the cases runs with the package logger at DEBUG in every process
+_dbg_gen, _dbg_chk = env.debug_dimension(0.1)
+gen_case = _dbg_gen(gen_case)
+check_case = _dbg_chk(check_case)
 
 TECHNIQUE = "runtime monitoring: recorded per-process result logs from interpreters with different PYTHONHASHSEED compared offline; in-process permutation differential"
 LEVEL_TEXT = ("{Q} (quick) / {T} (thorough) cases, each executed in 4 / 12 fresh interpreters differing only in the string-hash seed; the per-case "
